@@ -109,7 +109,7 @@ impl Args {
                 // flags that take a value
                 if matches!(
                     a.as_str(),
-                    "--runs" | "--seed" | "--replay" | "--workers" | "--tier" | "--only" | "--start" | "--run-index" | "--mode" | "--out"
+                    "--runs" | "--seed" | "--replay" | "--workers" | "--tier" | "--only" | "--start" | "--end" | "--det" | "--replay-child" | "--run-index" | "--mode" | "--out"
                 ) {
                     i += 1;
                 }
